@@ -291,3 +291,38 @@ ADD = Contract(
 
 VARIANTS = [APPEND_ROW_RECT, CONCAT_RECT]
 CONTRACTS += [MUL, ADD]
+
+
+# ----------------------------------------------------------------------------- Table.__getitem__: which namespace an expression sees   (C14)
+from pyvc.opaque_engine import OpaqueEngine      # noqa: E402
+_TDM = TVCls("mapping")
+TTabE = TRec("Table", dict(_data=_TDM))
+_has = z3.Function("py_has_key", V, V, BoolS)
+_get = z3.Function("py_getitem", V, V, V)
+_eval3 = z3.Function("builtin_eval/3", V, V, V, V)
+GBLMATH = z3.Const("py_global_gblmath", V)
+
+
+def _col_or_expr(data, name):
+    """a stored entry under that key, else the text evaluated with the math functions as GLOBALS and the table's entries as LOCALS:
+    a column named like a function (sign, sin, exp) therefore means the column"""
+    return z3.If(_has(data, name), _get(data, name), _eval3(name, GBLMATH, data))
+
+
+GETITEM_STR = Contract(
+    module=M, qualname="Table.__getitem__", params=dict(self=TTabE, args=TV), result=TV,
+    requires=[("a-string", lambda s: z3.Function("py_isinstance_str", V, BoolS)(s.args.t))],
+    ensures=[("the-entry-or-the-expression-over (math functions, columns-as-locals)", lambda o, n, r: r.t == _col_or_expr(o.self._data.t, o.args.t))],
+    raises={"UserError": dict(when=None, post=[], modifies=())}, min_obligations=1,
+    extra=dict(engine=OpaqueEngine, variant="string-argument", stable_reads=True, opaque_globals=("gblmath",),
+               block=dict(first="if isinstance(args, str):", count=1)),
+    note="block contract: t['name'] / t['expression'] -- the two-argument form t[col, row] resolves `col` the same way (next contract)")
+
+GETITEM_COL2 = Contract(
+    module=M, qualname="Table.__getitem__", params=dict(self=TTabE, col=TV), ghost=dict(),
+    ensures=[("same-resolution-as-the-one-argument-form", lambda o, n, r: getattr(n, "@local:col").t == _col_or_expr(o.self._data.t, o.col.t))],   # (the block rebinds its local `col`)
+    raises={"UserError": dict(when=None, post=[], modifies=("col",))}, modifies=("col",), min_obligations=1,
+    extra=dict(engine=OpaqueEngine, variant="column-of-a-cell-access", stable_reads=True, opaque_globals=("gblmath",),
+               block=dict(first="try:", count=1, nth=1, of=2)),
+    note="block contract: the try statement of the two-argument branch")
+VARIANTS += [GETITEM_STR, GETITEM_COL2]
